@@ -392,3 +392,25 @@ pub fn check_escape_u2(raw: &[u8], level: u8) -> Outcome {
     core::mem::forget(out);
     Outcome::Pass
 }
+
+/// K1 for non-ASCII text, concrete lead byte(s) and ONE symbolic continuation byte: the characters
+/// U+0100..U+013F (`lead` = C4) or U+2000..U+203F (`lead` = E2 80) pass through untouched and borrowed.
+/// (Escaping must look at bytes: a code point whose LOW byte equals a special character, e.g. U+013C or
+/// U+2026, is not that character.) raw: [x]
+pub fn check_escape_lead(raw: &[u8], level: u8, three: bool) -> Outcome {
+    let x = raw[0];
+    require!(x >= 0x80 && x <= 0xBF);
+    let b2 = [0xC4, x];
+    let b3 = [0xE2, 0x80, x];
+    let buf: &[u8] = if three { &b3 } else { &b2 };
+    let s = as_str(buf);
+    let out = level_fn(level, s);
+    ensure!(matches!(out, Cow::Borrowed(_)), "C10: escaping borrows iff nothing was replaced");
+    let o = out.as_bytes();
+    ensure!(o.len() == buf.len(), "C10: escaping replaces exactly the characters of its level (length)");
+    forall_idx!(j < buf.len() => {
+        ensure!(o[j] == buf[j], "C10: escaping replaces exactly the characters of its level");
+    });
+    core::mem::forget(out);
+    Outcome::Pass
+}
